@@ -58,7 +58,13 @@ def run(case):
     fdata = bool(case.get("float_data"))
     if fdata:
         import flowpaths.utils.graphutils as gu
+        from fractions import Fraction
+        exact_ok = all(sum(Fraction(a[2]) for a in inst["arcs"] if a[1] == v) == sum(Fraction(a[2]) for a in inst["arcs"] if a[0] == v)
+                       for v in inst["nodes"] if any(a[1] == v for a in inst["arcs"]) and any(a[0] == v for a in inst["arcs"]))
         if not gu.check_flow_conservation(drivers.build_graph(inst), "flow"):
+            if exact_ok:
+                return {"v": [{"kind": "conserving_flow_rejected", "msg": f"check_flow_conservation rejects {inst['arcs']}, which conserves flow exactly (in rational arithmetic) at every inner node"}],
+                        "nt": None, "tags": {}, "out": "viol"}
             return {"v": [], "nt": None, "tags": {"float_data_not_exactly_conserving(skipped)": 1}, "out": "skip"}
     o = drivers.observe(dict(inst, cls=sib, kw={"weight_type": "float" if fdata else "int"}))
     if not o["solved"]:
@@ -121,6 +127,7 @@ def run(case):
         # solver answers within tolerance: every value read from the solver shifted by -/+ 5e-10 (int weights must be rounded, not truncated)
         cfgs.append(("int,noise-", {"weight_type": "int", "optimization_options": ({} if cyc else {"optimize_with_greedy": False})}, None, "edge", []))
         cfgs.append(("int,noise+", {"weight_type": "int", "optimization_options": ({} if cyc else {"optimize_with_greedy": False})}, None, "edge", []))
+    cfgs.append(("int,solve_twice", {"weight_type": "int", "optimization_options": ({} if cyc else {"optimize_with_greedy": False})}, None, "edge", []))
     for name, kw, inst2, origin, ignored in cfgs:
         use = inst2 or inst
         kw = dict(kw)
@@ -134,7 +141,7 @@ def run(case):
                 obs = drivers.observe(dict(use, cls=cls, kw=kw))
             tags["noisy_value_reads"] += vn.reads
         else:
-            obs = drivers.observe(dict(use, cls=cls, kw=kw))
+            obs = drivers.observe(dict(use, cls=cls, kw=kw, solve_twice=("solve_twice" in name)))
         tags[f"cfg:{name.split(',')[1] if ',' in name else 'plain'}"] += 1
         ctx = f"{cls}({name}: {kw})"
         if obs["exc"]:
